@@ -40,16 +40,19 @@ Proof.
   apply (in_map (fun mode => mkMpeg vb lb prot bri sri pad priv mode 0)). apply zrange_In; lia.
 Qed.
 
+Lemma mpeg_check_true p : mpeg_check p = true -> decode_mpeg_frame (build_mpeg_frame p) = Ok (expected_mpeg p).
+Proof. unfold mpeg_check. apply result_list_eqb_eq. Qed.
+
 Theorem mpeg_exhaustive vb lb prot bri sri pad priv mode :
   In vb [0; 2; 3] -> In lb [1; 2; 3] -> 0 <= prot <= 1 -> 1 <= bri <= 14 -> 0 <= sri <= 2 ->
   0 <= pad <= 1 -> 0 <= priv <= 1 -> 0 <= mode <= 3 ->
-  let p := mkMpeg vb lb prot bri sri pad priv mode 0 in
-  decode_mpeg_frame (build_mpeg_frame p) = Ok (expected_mpeg p).
+  decode_mpeg_frame (build_mpeg_frame (mkMpeg vb lb prot bri sri pad priv mode 0)) =
+  Ok (expected_mpeg (mkMpeg vb lb prot bri sri pad priv mode 0)).
 Proof.
-  intros Hv Hl Hp Hb Hs Hpad Hpriv Hm p.
-  apply result_list_eqb_eq.
-  exact (proj1 (forallb_forall mpeg_check mpeg_domain) mpeg_all_checked p
-           (mpeg_domain_In vb lb prot bri sri pad priv mode Hv Hl Hp Hb Hs Hpad Hpriv Hm)).
+  intros Hv Hl Hp Hb Hs Hpad Hpriv Hm.
+  apply mpeg_check_true.
+  apply (proj1 (forallb_forall mpeg_check mpeg_domain) mpeg_all_checked).
+  apply mpeg_domain_In; assumption.
 Qed.
 
 Theorem mpeg_tables_match_spec : mpeg_bitrate_table_diff = [] /\ mpeg_rate_table_diff = [].
@@ -58,24 +61,36 @@ Proof. split; vm_compute; reflexivity. Qed.
 Lemma mpeg_invalid_checked : forallb mpeg_rejects mpeg_invalid_domain = true.
 Proof. vm_compute. reflexivity. Qed.
 
+Lemma mpeg_rejects_true p : mpeg_rejects p = true ->
+  decode_mpeg_frame (build_mpeg_header p ++ zeros 2000) = Raise EMutagen.
+Proof.
+  unfold mpeg_rejects. destruct (decode_mpeg_frame (build_mpeg_header p ++ zeros 2000)) as [x|e]; [discriminate|].
+  destruct e; try discriminate. reflexivity.
+Qed.
+
+Lemma mpeg_invalid_In vb lb bri sri mode :
+  0 <= vb <= 3 -> 0 <= lb <= 3 -> 0 <= bri <= 15 -> 0 <= sri <= 3 -> 0 <= mode <= 3 ->
+  vb = 1 \/ lb = 0 \/ bri = 0 \/ bri = 15 \/ sri = 3 ->
+  In (mkMpeg vb lb 1 bri sri 0 0 mode 0) mpeg_invalid_domain.
+Proof.
+  intros Hv Hl Hb Hs Hm Hbad.
+  unfold mpeg_invalid_domain. apply filter_In. split.
+  - apply in_flat_map; exists vb; split; [apply zrange_In; lia|].
+    apply in_flat_map; exists lb; split; [apply zrange_In; lia|].
+    apply in_flat_map; exists bri; split; [apply zrange_In; lia|].
+    apply in_flat_map; exists sri; split; [apply zrange_In; lia|].
+    apply (in_map (fun mode => mkMpeg vb lb 1 bri sri 0 0 mode 0)). apply zrange_In; lia.
+  - cbn [mp_vb mp_lb mp_bri mp_sri].
+    destruct Hbad as [->|[->|[->|[->| ->]]]]; rewrite ?Z.eqb_refl, ?orb_true_r; reflexivity.
+Qed.
+
 Theorem mpeg_invalid_rejected vb lb bri sri mode :
   0 <= vb <= 3 -> 0 <= lb <= 3 -> 0 <= bri <= 15 -> 0 <= sri <= 3 -> 0 <= mode <= 3 ->
   vb = 1 \/ lb = 0 \/ bri = 0 \/ bri = 15 \/ sri = 3 ->
   decode_mpeg_frame (build_mpeg_header (mkMpeg vb lb 1 bri sri 0 0 mode 0) ++ zeros 2000) = Raise EMutagen.
 Proof.
   intros Hv Hl Hb Hs Hm Hbad.
-  pose (p := mkMpeg vb lb 1 bri sri 0 0 mode 0).
-  assert (Hin : In p mpeg_invalid_domain).
-  { unfold mpeg_invalid_domain. apply filter_In. split.
-    - apply in_flat_map; exists vb; split; [apply zrange_In; lia|].
-      apply in_flat_map; exists lb; split; [apply zrange_In; lia|].
-      apply in_flat_map; exists bri; split; [apply zrange_In; lia|].
-      apply in_flat_map; exists sri; split; [apply zrange_In; lia|].
-      apply (in_map (fun mode => mkMpeg vb lb 1 bri sri 0 0 mode 0)). apply zrange_In; lia.
-    - cbn [p mp_vb mp_lb mp_bri mp_sri].
-      destruct Hbad as [->|[->|[->|[->| ->]]]]; rewrite ?Z.eqb_refl, ?orb_true_r; reflexivity. }
-  pose proof (proj1 (forallb_forall mpeg_rejects mpeg_invalid_domain) mpeg_invalid_checked p Hin) as H.
-  unfold mpeg_rejects in H. fold p.
-  destruct (decode_mpeg_frame (build_mpeg_header p ++ zeros 2000)) as [x|e]; [discriminate|].
-  destruct e; try discriminate. reflexivity.
+  apply mpeg_rejects_true.
+  apply (proj1 (forallb_forall mpeg_rejects mpeg_invalid_domain) mpeg_invalid_checked).
+  apply mpeg_invalid_In; assumption.
 Qed.
